@@ -20,7 +20,7 @@ from embit.descriptor import Descriptor
 from embit.descriptor.miniscript import Miniscript
 
 PROP = "C13"
-MODS = ["EmbitModel.Props.C13"]
+MODS = ["EmbitModel.Props.C13", "EmbitModel.Props.C13X"]
 
 
 class Timeout(Exception):
@@ -173,6 +173,9 @@ def check_case(c, ms_text, toks, ctx, kind, depth=0, heads=None, two_leaves=Fals
             return r
         # (2) compile() is the script the specification assigns
         c.expect("ms.script " + toks, "ok " + r["d_compile"], info, proven=True)
+        # the hypothesis of Props/C13X `accepted_compiles_to_template` holds on what embit accepted: the argument bytes
+        # (which (2) shows are the bytes embit pushes) have the shape `Ms.parserArgs`, and ordering pushes = ordering keys
+        c.expect("ms.parserargs %s %s" % (ctx, toks), "ok 1 1", info, proven=False)
         # (3) reported length = length of the compiled script (= length of the specified script)
         clen = len(r["d_compile"]) // 2
         c.expect("ms.speclen " + toks, "ok %s" % r["d_len"], info, proven=True)
@@ -222,6 +225,14 @@ def witnesses():
         res.append((("key", f, 0, "unc"), False, "D22-uncompressed"))
     res.append((("multi", "multi", 2, [(0, "unc"), (1, "sec"), (2, "unc")]), False, "D22-uncompressed"))
     res.append((("bin", "or_d", ("key", "pk", 3, "unc"), ("key", "pkh", 4, "unc")), False, "D22-uncompressed"))
+    # sortedmulti over a MIXTURE of compressed and uncompressed keys (outside `argsOk`, inside `parserArgs`, Props/C13X):
+    # embit orders the pushes, the specification the keys - they agree on SEC keys
+    for forms in (["unc", "sec", "unc", "sec"], ["sec", "unc", "sec"], ["unc", "unc", "sec"], ["sec", "sec", "unc", "unc", "sec"]):
+        for rot in range(2):
+            ks = [((3 * i + rot) % msgen.NKEYS, f) for i, f in enumerate(forms)]
+            res.append((("multi", "sortedmulti", 2, ks), False, "C13X-sortedmulti-mixed"))
+    res.append((("bin", "and_v", ("wrap", "v", ("key", "pk", 5, "unc")),
+                 ("multi", "sortedmulti", 1, [(1, "unc"), (0, "sec")])), False, "C13X-sortedmulti-mixed"))
     return res
 
 
